@@ -6,4 +6,9 @@ func moreFacts() {
 	c20Facts()
 	c16Facts()
 	c11Facts()
+	c08Facts()
+	c18Facts()
+	c12Facts()
+	c09Facts()
+	c05Facts()
 }
